@@ -14,6 +14,7 @@ mod gen;
 mod civil;
 mod env;
 mod faults;
+mod foreign;
 mod keys;
 mod model;
 mod oracle;
